@@ -59,3 +59,12 @@ Definition check_run (c : cfg) (pop0 : list agent) (inps : list ginput) (obs : l
   list_eqb final_eqb (pop stf) final &&
   (* the loop ended exactly here: the guard fails now, or the last generation took the early stop *)
   (negb (guard c (pop stf)) || match rev outs with (o, _) :: _ => o_stop o | [] => false end).
+
+(* the same for a call on a population with history and a memory that already holds [added0] transitions *)
+Definition check_run_from (c : cfg) (pop0 : list agent) (added0 : nat) (inps : list ginput) (obs : list ogen)
+           (final : list (nat * list nat * nat * nat)) : bool :=
+  let '(outs, stf, ok) := run_trace c (init_state_from pop0 added0) inps in
+  ok &&
+  list_eqb check_gen outs obs &&
+  list_eqb final_eqb (pop stf) final &&
+  (negb (guard c (pop stf)) || match rev outs with (o, _) :: _ => o_stop o | [] => false end).
